@@ -88,17 +88,19 @@ def _arg_instrument(name):
 def operations(level):
     ops = [["simulate"], ["simulate_init"], ["to", "float64"], ["to_kw", "float32"], ["to", "float16"], ["to_kw", "bfloat16"],
            ["alias", "double"], ["alias", "float"], ["alias", "half"], ["alias", "bfloat16"],
+           ["alias", "float64"], ["alias", "float16"],
            ["to_tensor", "float64"], ["to_instrument", "primary_float64"], ["to_instrument", "primary_undeclared"],
-           ["to_device", "cpu"], ["set_default", "float64"], ["set_default", "float32"],
+           ["to_instrument", "derivative_float32"],
+           ["to_device", "cpu"], ["cpu"], ["set_default", "float64"], ["set_default", "float32"],
            ["register_buffer", "float64"], ["register_buffer", "float32"],
            ["to_instrument_kw", "primary_float64"], ["to", "int32"], ["to_kw", "int64"], ["to", "complex64"],
            ["d.to", "float64"], ["d.to_kw", "float16"], ["d.alias", "float"], ["d.simulate"], ["d.to_instrument", "primary_undeclared"],
            ["d.to", "int32"]]
     if level == "full":
-        ops += [["alias", "float64"], ["alias", "float32"], ["alias", "float16"],
+        ops += [["alias", "float32"],
                 ["to_tensor", "float16"], ["to_tensor", "int64"], ["to", "bool"],
-                ["to_instrument", "primary_float16_cpu"], ["to_instrument", "derivative_float32"],
-                ["cpu"], ["to_device_dtype", "float64"],
+                ["to_instrument", "primary_float16_cpu"],
+                ["to_device_dtype", "float64"],
                 ["d.alias", "double"], ["d.alias", "half"], ["d.alias", "bfloat16"],
                 ["d.to_tensor", "float32"], ["d.cpu"], ["d.to_kw", "int64"]]
     return ops
@@ -329,12 +331,15 @@ def check_transition(ctx, cfg, hist, op, after, dead):
         ctx.violation(site, f"buffer_device_after_{op[0]}", f"buffer devices {after.buffer_devices()}",
                       observed=list(after.buffer_devices()), expected="cpu", block=block)
     # the derivative's dtype/device are those of its underlier
-    dd, pd = after.d.dtype, after.p.dtype
-    if dd != pd or after.d.device != after.p.device:
+    pd, pdev = getattr(after.p, "dtype", "missing"), getattr(after.p, "device", "missing")
+    try:
+        dd, ddev = after.d.dtype, after.d.device
+    except Exception as e:  # noqa: BLE001
+        dd = ddev = f"{type(e).__name__}: {str(e)[:80]}"
+    if dd != pd or ddev != pdev:
         ctx.violation("derivative(" + cfg["derivative"] + ").dtype", f"alias_after_{op[0]}",
-                      f"derivative dtype/device {dd}/{after.d.device} != underlier's {pd}/{after.p.device}; "
-                      f"history {full}", observed=[str(dd), str(after.d.device)],
-                      expected=[str(pd), str(after.p.device)], block=block)
+                      f"derivative dtype/device {dd}/{ddev} != underlier's {pd}/{pdev}; "
+                      f"history {full}", observed=[str(dd), str(ddev)], expected=[str(pd), str(pdev)], block=block)
     return True
 
 
@@ -482,6 +487,12 @@ def dtype_bfs(ctx, block):
     dead = set()
     queried = set()
     n_queries = [0]
+    if len(ctx.samples) < 2:
+        h = [block["ctors"][0], ["simulate"], ["to", "float64"], ["set_default", "float64"], ["d.alias", "float"]]
+        ctx.sample({"family": "dtype_bfs", "what": "one history written out: automaton state after each prefix",
+                    "primary": cfg["primary"], "derivative": cfg["derivative"], "history": h,
+                    "automaton": [repr(model_state(cfg, h[:i + 1]).key()) for i in range(len(h))],
+                    "observed_at_end": repr(World(cfg, h).observe())})
 
     def build(h):
         return World(cfg, h)          # lazy: only worlds that are observed are constructed
